@@ -1234,6 +1234,50 @@ theorem server_disconnectLocalClient_invP {P} {s : Server} (h : s.InvP P) (id : 
     · exact ⟨h, rfl⟩
     · exact ⟨⟨fun x hx => h.conns x (SMap.mem_erase hx), fun x hx => h.chans x (SMap.mem_erase hx)⟩, rfl⟩
 
+/-! #### local (in-process) clients -/
+
+theorem feedClient_totalP {P} (hP : GoodP P) : ∀ (ps : List Bytes) (cl : Conn), cl.InvP P →
+    ∃ cl', Server.feedClient cl ps = .ok cl' ∧ cl'.InvP P ∧ cl.SameChans cl'
+  | [], cl, h => ⟨cl, rfl, h, Conn.SameChans.refl cl⟩
+  | p :: rest, cl, h => by
+    obtain ⟨c1, e1, i1, -, s1⟩ := processPacket_totalP hP h p
+    obtain ⟨c2, e2, i2, s2⟩ := feedClient_totalP hP rest c1 i1
+    exact ⟨c2, by simp only [Server.feedClient, e1, Res.bind_ok]; exact e2, i2, s1.trans s2⟩
+
+theorem feedServer_totalP {P} (hP : GoodP P) (id : Nat) : ∀ (ps : List Bytes) (s : Server), s.InvP P →
+    ∃ s' ok, Server.feedServer s id ps = .ok (s', ok) ∧ s'.InvP P ∧ s'.newConn = s.newConn
+  | [], s, h => ⟨s, true, rfl, h, rfl⟩
+  | p :: rest, s, h => by
+    obtain ⟨s1, ok, e1, i1, ad, -⟩ := server_processPacketFrom_totalP hP h p id
+    cases ok with
+    | false =>
+      exact ⟨s1, false, by simp only [Server.feedServer, e1, Res.bind_ok, Bool.false_eq_true, if_false, Res.pure_eq],
+        i1, newConn_of_addressed ad⟩
+    | true =>
+      obtain ⟨s2, ok2, e2, i2, n2⟩ := feedServer_totalP hP id rest s1 i1
+      exact ⟨s2, ok2, by simp only [Server.feedServer, e1, Res.bind_ok, if_true]; exact e2, i2,
+        n2.trans (newConn_of_addressed ad)⟩
+
+/-- `process_local_client`: server and client object both satisfying the invariant, counters in range for the two
+    flushes it performs (the server-side connection's, and the client's after it has been fed) -/
+theorem server_processLocalClient_totalP {P} (hP : GoodP P) {s : Server} (h : s.InvP P) (id : Nat) {cl : Conn}
+    (hcl : cl.InvP P) (hc1 : ∀ c, SMap.find? s.conns id = some c → c.CountersOK)
+    (hc2 : ∀ s1 ps cl1, s.getPacketsToSend id = .ok (s1, some ps) → Server.feedClient cl ps = .ok cl1 →
+      cl1.CountersOK) :
+    ∃ s' cl' ok, s.processLocalClient id cl = .ok (s', cl', ok) ∧ s'.InvP P ∧ cl'.InvP P ∧
+      s'.newConn = s.newConn := by
+  obtain ⟨s1, out, e1, i1, ad, -⟩ := server_getPacketsToSend_totalP h id hc1
+  cases out with
+  | none =>
+    exact ⟨s1, cl, false, by simp only [Server.processLocalClient, e1, Res.bind_ok, Res.pure_eq], i1, hcl,
+      newConn_of_addressed ad⟩
+  | some ps =>
+    obtain ⟨cl1, e2, i2, -⟩ := feedClient_totalP hP ps cl hcl
+    obtain ⟨cl2, out2, e3, i3, -, -⟩ := getPacketsToSend_totalP i2 (hc2 s1 ps cl1 e1 e2)
+    obtain ⟨s2, ok, e4, i4, n4⟩ := feedServer_totalP hP id out2 s1 i1
+    exact ⟨s2, cl2, ok, by simp only [Server.processLocalClient, e1, e2, e3, e4, Res.bind_ok, Res.pure_eq], i4, i3,
+      n4.trans (newConn_of_addressed ad)⟩
+
 /-- side conditions of one server operation: channel ids from the configuration, counters in range for a flush.
     `process_local_client` (which takes an arbitrary client object as argument) is not covered. -/
 def SrvValid (s : Server) : SL.SrvOp → Prop
